@@ -66,12 +66,13 @@ impl LockFile {
 	/// Acquires the lock, returning an error if the database is already in use
 	#[cfg(not(target_arch = "wasm32"))]
 	pub fn acquire(&mut self) -> Result<()> {
-		// Try to open the lock file with create flag
+		// Try to open the lock file with create flag. Do not truncate here: until the
+		// lock is held the file belongs to its current owner (it holds the owner's pid).
 		let file = OpenOptions::new()
 			.read(true)
 			.write(true)
 			.create(true)
-			.truncate(true)
+			.truncate(false)
 			.open(&self.path)
 			.map_err(|e| Error::Io(Arc::new(e)))?;
 
